@@ -1,6 +1,10 @@
 //! Contains the TinyLFU cache implementation designed specifically for
 //! write-behind caching layers.
 
+#[cfg(feature = "verif")]
+#[allow(unused_imports)]
+use qbice_verif_rt::{std, crossbeam, parking_lot};
+
 use std::{
     hash::{BuildHasher, Hash},
     sync::{Arc, atomic::AtomicBool},
